@@ -22,7 +22,10 @@ class URLString(DBBase):
     __tablename__ = 'url_strings'
 
     id = Column(Integer, primary_key=True, autoincrement=True)
-    url = Column(String, nullable=False, unique=True, index=True)
+    # The uniqueness is a constraint of the table itself (not a separate
+    # CREATE UNIQUE INDEX statement) so that it cannot be missing if the
+    # process dies while the schema is being created.
+    url = Column(String, nullable=False, unique=True)
 
     @classmethod
     def add_urls(cls, session, urls: Iterable[str]):
@@ -38,7 +41,7 @@ class QueuedURL(DBBase):
     # -- URLs --
     url_string_id = Column(
         Integer, ForeignKey(URLString.id),
-        nullable=False, unique=True, index=True,
+        nullable=False, unique=True,
         doc='Target URL to fetch'
     )
     url_string = relationship(
